@@ -459,7 +459,24 @@ def run(ctx):
             parts["beyond-the-value-alphabet:" + mode] = {"histories": n_, "starts": SPECIAL[mode]}
     from vf.checks import c10s
     ctx.close()
-    sres = c10s.run_s(ctx) if not ctx.alt and not only else {"violations": [], "coverage": {"executions": 0, "transitions": 0}}
+    try:
+        sres = c10s.run_s(ctx) if not ctx.alt and not only else {"violations": [], "coverage": {"executions": 0, "transitions": 0}}
+    except Exception as e:
+        # The schedule part refuses to go on when an execution does not reproduce its own prefix (state the code under test carries
+        # from one execution into the next).  That stays a machinery failure (exit 2) -- unless the history parts above have
+        # already produced violations that no known finding explains: those are reported, and the schedule part is recorded as
+        # not completed (the run is then not called exhaustive).
+        known = set()
+        try:
+            for line in open(os.path.join(os.path.dirname(os.path.dirname(os.path.dirname(os.path.abspath(__file__)))), "known_findings.txt")):
+                if line.startswith("C10 "):
+                    known.add(line.split()[1])
+        except OSError:
+            pass
+        if not [v for v in viols if v["cause"] not in known]:
+            raise
+        capped = "schedule part not completed (%s: %s)" % (type(e).__name__, str(e)[:160])
+        sres = {"violations": [], "coverage": {"executions": 0, "transitions": 0, "aborted": capped}}
     viols += sres["violations"]
     tot["states"] += sres["coverage"]["executions"]
     tot["transitions"] += sres["coverage"]["transitions"]
